@@ -14,6 +14,9 @@ pub struct SpecDecoded {
     pub consumed: usize,
     pub branch_factor: u32,
     pub height: u32,
+    /// false: the algorithm ran out of bits (an error); `ranges` then holds what had been added up
+    /// to that point (used only to predict the cost of running the implementation)
+    pub complete: bool,
 }
 
 /// The decoding algorithm of the specification, literally:
@@ -25,10 +28,19 @@ pub struct SpecDecoded {
 ///    the value start+i is a member, else push (start + i*B^(H-depth), depth+1);
 ///  * bits left over in the last byte read are ignored, the remaining bytes are not read.
 pub fn spec_decode(data: &[u8]) -> Result<SpecDecoded, ()> {
+    let sd = spec_decode_partial(data)?;
+    if sd.complete {
+        Ok(sd)
+    } else {
+        Err(())
+    }
+}
+
+pub fn spec_decode_partial(data: &[u8]) -> Result<SpecDecoded, ()> {
     let Some(h0) = data.first() else { return Err(()) };
     let b: u32 = [2, 4, 8, 32][(h0 & 3) as usize];
     let h = ((h0 >> 2) & 31) as u32;
-    let mut out = SpecDecoded { ranges: vec![], consumed: 1, branch_factor: b, height: h };
+    let mut out = SpecDecoded { ranges: vec![], consumed: 1, branch_factor: b, height: h, complete: true };
     if h == 0 {
         return Ok(out);
     }
@@ -39,7 +51,8 @@ pub fn spec_decode(data: &[u8]) -> Result<SpecDecoded, ()> {
     let pow = |e: u32| -> u128 { (b as u128).checked_pow(e).unwrap_or(u128::MAX / 64) };
     while let Some((start, depth)) = q.pop_front() {
         if bitpos + b as usize > total_bits {
-            return Err(());
+            out.complete = false;
+            return Ok(out);
         }
         let mut v: u32 = 0;
         for i in 0..b as usize {
@@ -169,11 +182,15 @@ pub enum DecodeOutcome {
     SkippedLarge,
 }
 
-pub const LARGE: u64 = 1 << 20;
+pub const LARGE: u64 = 1 << 16;
 
 /// One decoder case. Err = (stable label, details).
 pub fn decode_case(data: &[u8], bias: u32, max: u32) -> Result<(DecodeOutcome, u64), (String, String)> {
-    let spec = spec_decode(data);
+    let partial = spec_decode_partial(data);
+    let spec = match &partial {
+        Ok(sd) if sd.complete => Ok(sd.clone()),
+        _ => Err(()),
+    };
     let supported = match &spec {
         Ok(sd) => sd.height <= max_height(sd.branch_factor),
         Err(_) => match data.first() {
@@ -185,8 +202,9 @@ pub fn decode_case(data: &[u8], bias: u32, max: u32) -> Result<(DecodeOutcome, u
         Ok(sd) if supported => Some((bias_and_max(&sd.ranges, bias, max), sd.consumed)),
         _ => None,
     };
-    if let Some((m, _)) = &expected {
-        let pop: u64 = m.iter().map(|(a, b)| b - a + 1).sum();
+    // cost prediction: everything the algorithm adds before finishing or running out of bits
+    if let (Ok(sd), true) = (&partial, supported) {
+        let pop: u64 = bias_and_max(&sd.ranges, bias, max).iter().map(|(a, b)| b - a + 1).sum();
         if pop > LARGE {
             return Ok((DecodeOutcome::SkippedLarge, 0));
         }
